@@ -14,6 +14,8 @@ def run(m, tier):
                                                ("format-detection and reading", "the source form is decided from the content read now, not from what the same file name held before"), 70))
     from rules import reader_interp
     results.append(reader_interp.fixed_rule(m, "C05.R12", tier))
+    from rules import prog_rules
+    results.append(prog_rules.layout_rule(m, "C05.R13", tier, "fixed"))
     expl = ("Decides structural clauses of C05 by bounded-exhaustive evaluation of the pure string predicates of the reader, interpreted "
             "from their AST (never imported): the form detector (voting expression + regex literal) votes free for no label field, "
             "comment line or fixed-form continuation line and for every statement starting in columns 1-5 / trailing '&'; "
